@@ -231,6 +231,16 @@ class AEval(dtable.Eval):
             return ""        # `TokenStream::new()` / `Default::default()`: no tokens
         if k == "list" and all(x[0] == "tok" for x in v[1]):
             return " ".join(x[1] for x in v[1])        # token streams collected into one TokenStream
+        if k == "ctor" and PROGRAM is not None and self.depth <= 12:
+            # a user type interpolated in quote!: its own ToTokens impl, interpreted
+            types = set(PROGRAM.variant_enum.get(v[1], ())) | ({v[1]} if v[1] in PROGRAM.structs else set())
+            cands = [f for t in types for f in PROGRAM.by_qual.get((t, "to_token_stream"), []) if "ToTokens" in (f.impl_trait or "")]
+            fn = PROGRAM._pick(cands, self._cur_file()) if cands else None
+            if fn is not None:
+                got = self.call_fn_obj(fn, [v])
+                if got[0] == "tok":
+                    return got[1]
+                return self.tokens_of(got)
         raise Unknown("value has no token form: %s" % (v,))
 
     def quote(self, tokens, env):
@@ -310,8 +320,11 @@ class AEval(dtable.Eval):
                 return ("builtin-fn", p.split("::")[-1])
             if PROGRAM is not None and not p.split("::")[-1][:1].isupper():
                 # a function of the analysed tree used as a value (`.map(helper)`)
+                q_ = p.split("::")[-2] if "::" in p else ""
+                if q_ == "Self" and getattr(self, "_impl_stack", None):
+                    q_ = self._impl_stack[-1]
                 cands = [f2 for f2 in PROGRAM.by_name.get(p.split("::")[-1], []) if not f2.impl_self] if "::" not in p or p.split("::")[-2][:1].islower() else \
-                    PROGRAM.by_qual.get((p.split("::")[-2], p.split("::")[-1]), [])
+                    PROGRAM.by_qual.get((q_, p.split("::")[-1]), [])
                 pf = PROGRAM._pick(cands, self._cur_file()) if cands else None
                 if pf is not None:
                     return ("localfn", pf)
@@ -557,6 +570,25 @@ class AEval(dtable.Eval):
             return self.macro(e, env)
         if k == "Call":
             return self.call(e, env)
+        if k == "MethodCall" and e["method"] in ("map", "for_each") and len(e["args"]) == 1 and is_node(e["args"][0]) and e["args"][0]["k"] == "Closure" \
+                and len(e["args"][0]["inputs"]) == 1 and is_node(e["args"][0]["inputs"][0]) and e["args"][0]["inputs"][0]["k"] == "PIdent" \
+                and is_node(e["receiver"]) and e["receiver"]["k"] == "MethodCall" and e["receiver"]["method"] == "iter_mut" and not e["receiver"]["args"] \
+                and "iter_mut" not in self.builtins and e["method"] not in self.builtins:
+            # `place.iter_mut().map(|x| ..)`: what the closure does to `x` (e.g. a `&mut self` method that rewrites it) lands in the place
+            pl = self._mut_place(e["receiver"]["receiver"], env)
+            cur = self.ex(pl, env) if pl is not None else None
+            if cur is not None and cur[0] == "list" and not isinstance(cur, MutRef):
+                f = self.ex(e["args"][0], env)
+                pname = e["args"][0]["inputs"][0]["name"]
+                outs, news = [], []
+                for x in cur[1]:
+                    self._applied_env = None
+                    outs.append(self.apply(f, [x]))
+                    ae = self._applied_env
+                    news.append(ae[pname] if ae is not None and pname in ae else x)
+                if list(news) != list(cur[1]):
+                    self._place_store(pl, L(*news), env)
+                return L(*outs) if e["method"] == "map" else UNIT
         if k == "MethodCall":
             return self.method(e, env)
         if k == "Index" and is_node(e["index"]) and e["index"]["k"] == "Range":
@@ -667,6 +699,7 @@ class AEval(dtable.Eval):
             except Ret as r:
                 return r.value
             finally:
+                self._applied_env = e2
                 # a closure that assigns to / pushes on a captured variable changes the variable it captured
                 for kk in cenv:
                     if kk in e2 and kk not in bound:
